@@ -37,11 +37,20 @@ Definition ostate_eqb (a b : option state) : bool :=
   | _, _ => false
   end.
 
-(* an end time taken during coercion.New is represented by k_t0, which is the model's [stamp] *)
-Definition norm_end (t0 t1 : Z) (st : option state) : option state :=
+(* an end time taken during coercion.New (it lies in [k_t0, k_t1] and differs from the object's end
+   time before) is represented by k_t0, which is the model's [stamp] *)
+Definition norm_end (t0 t1 : Z) (before st : option state) : option state :=
   match st with
-  | Some s => if Z.leb t0 (s_end s) && Z.leb (s_end s) t1 then Some (set_end t0 s) else Some s
+  | Some s =>
+      let same := match before with Some b => Z.eqb (s_end b) (s_end s) | None => false end in
+      if Z.leb t0 (s_end s) && Z.leb (s_end s) t1 && negb same then Some (set_end t0 s) else Some s
   | None => None
+  end.
+
+Fixpoint norm_states (t0 t1 : Z) (before obs : list (option state)) : list (option state) :=
+  match before, obs with
+  | b :: before', o :: obs' => norm_end t0 t1 b o :: norm_states t0 t1 before' obs'
+  | _, _ => obs
   end.
 
 Definition is_in (id : N) (l : list N) : bool := existsb (N.eqb id) l.
@@ -64,7 +73,7 @@ Definition plan_code (c : case) (resumed : list N) (p p' : plan) (o : pobs) : na
     (if closed_by_recovery p o then 7 else if Nat.ltb 0 (o_calls o + o_writes o) then 0 else 3)
   else if negb (o_same o) then 5
   else if negb (list_eqb ostate_eqb (map row_state (rows_plan p'))
-                         (map (norm_end (k_t0 c) (k_t1 c)) (o_states o))
+                         (norm_states (k_t0 c) (k_t1 c) (map row_state (rows_plan p)) (o_states o))
                 && reason_eqb (p_reason p') (o_reason o)) then 1
   else if Nat.ltb 0 (o_calls o) then 2
   else if list_eqb ostate_eqb (map row_state (rows_plan p')) (map row_state (rows_plan p))
